@@ -19,12 +19,13 @@ import (
 
 func c09Src() tm.Tree {
 	f := func(p string) tm.Entry { return tm.File(p, []byte("src:"+p), 0o644, tm.Past) }
-	return tm.Tree{f("a"), f("c"), f("e"), tm.D("d", 0o755, tm.Past), f("d/a"), f("d/c")}
+	// "report-2024", "lib64" and "d/data.bak" have extraneous candidates that are strict prefixes of them
+	return tm.Tree{f("a"), f("c"), f("e"), tm.D("d", 0o755, tm.Past), f("d/a"), f("d/c"), f("d/data.bak"), f("lib64"), f("report-2024")}
 }
 
 // extraneous candidates, in every sort position relative to the listed names
-var c09TopExtra = []string{"0", "b", "f", "z"}
-var c09SubExtra = []string{"d/0", "d/b", "d/z"}
+var c09TopExtra = []string{"0", "b", "f", "z", "report", "lib"}
+var c09SubExtra = []string{"d/0", "d/b", "d/z", "d/data"}
 
 func c09Extra(name string, kind byte) tm.Tree {
 	switch kind {
@@ -48,7 +49,7 @@ type c09Case struct {
 }
 
 func (c c09Case) String() string {
-	return fmt.Sprintf("top-extraneous=%04b sub-extraneous=%03b kinds=%d delete=%v ioerr=%v arr=%s exclude=%q", c.top, c.sub, c.kinds, c.del, c.ioerr, c.arr, c.excl)
+	return fmt.Sprintf("top-extraneous=%06b sub-extraneous=%04b kinds=%d delete=%v ioerr=%v arr=%s exclude=%q", c.top, c.sub, c.kinds, c.del, c.ioerr, c.arr, c.excl)
 }
 
 func bits(n int) int {
@@ -63,15 +64,15 @@ func c09Dst(c c09Case) tm.Tree {
 	// listed entries are present: one up to date, one stale, one missing
 	src := c09Src()
 	dst := tm.Tree{*src.Find("a"), tm.File("c", []byte("stale"), 0o644, tm.Past-50), tm.D("d", 0o755, tm.Past), *src.Find("d/a")}
-	kindsTop := []byte{tm.Reg, tm.Reg, tm.Reg, tm.Dir}
-	kindsSub := []byte{tm.Reg, tm.Reg, tm.Reg}
+	kindsTop := []byte{tm.Reg, tm.Reg, tm.Reg, tm.Dir, tm.Reg, tm.Dir}
+	kindsSub := []byte{tm.Reg, tm.Reg, tm.Reg, tm.Reg}
 	switch c.kinds {
 	case 1:
-		kindsTop = []byte{tm.Dir, tm.Link, tm.Fifo, tm.Reg}
-		kindsSub = []byte{tm.Link, tm.Dir, tm.Fifo}
+		kindsTop = []byte{tm.Dir, tm.Link, tm.Fifo, tm.Reg, tm.Dir, tm.Reg}
+		kindsSub = []byte{tm.Link, tm.Dir, tm.Fifo, tm.Dir}
 	case 2:
-		kindsTop = []byte{tm.Link, tm.Dir, tm.Dir, tm.Fifo}
-		kindsSub = []byte{tm.Dir, tm.Fifo, tm.Link}
+		kindsTop = []byte{tm.Link, tm.Dir, tm.Dir, tm.Fifo, tm.Link, tm.Fifo}
+		kindsSub = []byte{tm.Dir, tm.Fifo, tm.Link, tm.Link}
 	}
 	for i, n := range c09TopExtra {
 		if c.top&(1<<i) != 0 {
@@ -268,11 +269,17 @@ func c09BuildReal(tier string) core.Source {
 	}
 	for _, arr := range drive.Arrangements {
 		for kinds := 0; kinds < kindsN; kinds++ {
-			for top := 0; top < 16; top++ {
+			for top := 0; top < 64; top++ {
 				if bits(top) > 3 {
 					continue
 				}
-				for sub := 0; sub < 8; sub++ {
+				for sub := 0; sub < 16; sub++ {
+					if bits(sub) > 3 {
+						continue
+					}
+					if tier != "thorough" && bits(top)+bits(sub) > 4 {
+						continue
+					}
 					for _, del := range []bool{true, false} {
 						for _, excl := range []string{"", "b", "z"} {
 							if !del && excl != "" {
@@ -302,8 +309,8 @@ func c09BuildScripted(tier string) core.Source {
 	drive.Quiet()
 	var cases []c09Case
 	for role := 0; role < 2; role++ {
-		for top := 0; top < 16; top += 3 {
-			for sub := 0; sub < 8; sub += 3 {
+		for top := 0; top < 64; top += 5 {
+			for sub := 0; sub < 16; sub += 3 {
 				for _, ioerr := range []bool{true, false} {
 					cases = append(cases, c09Case{top: top, sub: sub, del: true, ioerr: ioerr, arr: []string{"scripted-server", "scripted-client"}[role]})
 				}
@@ -366,7 +373,7 @@ func init() {
 	core.Register(&core.Prop{
 		ID:    "C09",
 		Level: "model_checking",
-		Rule: "real: source {a,c,e,d/,d/a,d/c}; destination holds listed entries (up to date, stale, missing) plus every subset of <=3 extraneous top-level entries {0,b,f,z/} (every sort position; z is a non-empty directory) x every subset of extraneous entries {d/0,d/b,d/z} in the subdirectory (thorough: files, non-empty directories, symlinks, fifos in rotation) x --delete on/off x exclude {none,b,z} x sender I/O error (a vanished source argument) x 5 arrangements; scripted: the I/O-error flag set by a scripted reference sender in both receiver roles. " +
+		Rule: "real: source {a,c,e,d/,d/a,d/c,d/data.bak,lib64,report-2024}; destination holds listed entries (up to date, stale, missing) plus every subset of <=3 extraneous top-level entries {0,b,f,z/,report,lib/} (every sort position; names that are strict prefixes of listed names report-2024 and lib64; z and lib are non-empty directories) x every subset of <=3 extraneous entries {d/0,d/b,d/z,d/data} in the subdirectory (thorough: files, non-empty directories, symlinks, fifos in rotation) x --delete on/off x exclude {none,b,z} x sender I/O error (a vanished source argument) x 5 arrangements; scripted: the I/O-error flag set by a scripted reference sender in both receiver roles. " +
 			"oracle: after success the destination entry set equals listed + protected-by-exclude when --delete and no I/O error, nothing listed is removed, nothing at all is removed without --delete or with the I/O-error flag, a canary directory next to the destination is untouched. states = destination entries judged, transitions = sessions",
 		Assum: []string{"recursive sync of a directory's contents (src/), as the property states"},
 		Parts: func(tier string) []core.Part {
